@@ -240,7 +240,35 @@ func c04Uplink(c *core.Ctx, r *core.RNG, kind string, key [16]byte, major byte) 
 	c.Count("msgs."+kind, 1)
 }
 
+// c04Scribble: a caller that patches the bytes some Marshal call handed out (sets RFU bits in a header
+// byte, appends to an identifier's bytes) must not thereby change what goes into later MICs and ciphertexts.
+func c04Scribble(r *core.RNG) {
+	for _, mt := range []lorawan.MType{lorawan.JoinRequest, lorawan.JoinAccept, lorawan.RejoinRequest} {
+		for mj := 0; mj < 4; mj++ {
+			h := lorawan.MHDR{MType: mt, Major: lorawan.Major(mj)}
+			if b, err := h.MarshalBinary(); err == nil && len(b) > 0 {
+				b[0] |= 0x1c
+				_ = append(b, 0xff)
+			}
+		}
+	}
+	var e lorawan.EUI64
+	var n lorawan.NetID
+	var d lorawan.DevAddr
+	r.Fill(e[:])
+	for _, f := range []func() ([]byte, error){e.MarshalBinary, n.MarshalBinary, d.MarshalBinary, lorawan.DevNonce(r.Intn(65536)).MarshalBinary, lorawan.JoinNonce(r.Intn(1 << 24)).MarshalBinary} {
+		if b, err := f(); err == nil {
+			for i := range b {
+				b[i] ^= 0xff
+			}
+		}
+	}
+}
+
 func c04JoinAccept(c *core.Ctx, r *core.RNG, key [16]byte, major byte) {
+	if r.Chance(1, 8) {
+		c04Scribble(r)
+	}
 	ja := genJoinAccept(r)
 	sj := specJoinAccept(ja)
 	mhdr := byte(1<<5) | major&3
